@@ -333,6 +333,8 @@ def shard(i: int, n: int, tier: str, seed: int) -> Result:
         batch.clear()
 
     with genrun.Scratch(prefix='vf-c15-') as work:
+        if i == 0:
+            directed(res, work)
         tries = 0
         while len(seen) < total and tries < total * 4:
             tries += 1
@@ -354,6 +356,70 @@ def shard(i: int, n: int, tier: str, seed: int) -> Result:
     res.counters['skeletons'] = len(seen)
     res.counters['accepted'] = accepted
     return res
+
+
+DIRECTED_HEADER = """import fpy2 as fp
+
+class _M:
+    pass
+
+m = _M()
+m.y = 3.0
+m.a = 2.0
+y = 5.0
+a = 7.0
+
+@fp.fpy
+def g(x):
+    return x + 1
+
+"""
+
+# (tag, body of `def f(c, x, xs, xss)`): shapes at the edges of the definedness rules -- names that are also attributes / globals /
+# functions of the enclosing module, names in call position, comprehension stages that read a target of the same comprehension.
+# Each is either rejected by the front end or runs without an unbound-name failure on every input below.
+DIRECTED = [
+    ('attr_name_is_branch_local', 'if c:\n        y = 1\n    return y + m.y'),
+    ('attr_name_is_loop_target', 'for y in xs:\n        pass\n    return y + m.y'),
+    ('attr_name_is_if1_local', 'if c:\n        a = x\n    t = m.a\n    return a + t'),
+    ('callee_is_loop_target', 'for g in xs:\n        pass\n    return g(1.0)'),
+    ('callee_is_branch_local', 'if c:\n        g = 1\n    return g(x)'),
+    ('comp_stage_reads_own_target', 'a = xss[0]\n    return [a for row in xss for a in a]'),
+    ('comp_stage_reads_later_target', 'b = xs\n    return [p + q for p in b for b in xss for q in b]'),
+    ('global_shadowed_in_branch', 'if c:\n        y = x\n    return y'),
+    ('global_shadowed_by_loop_target', 'for a in xs:\n        pass\n    return a'),
+    ('with_alias_after_block', 'if c:\n        with fp.FP32 as k:\n            t = x\n    return k'),
+    ('comp_target_after_comp', 'ys = [w for w in xs]\n    return w'),
+    ('while_local_after_loop', 'i = 0\n    while i < x:\n        z = i\n        i = i + 1\n    return z'),
+]
+
+
+def directed(res, work):
+    from ..gen import prog as genprog, run as genrun
+    inputs = [(cc, xv, xs, xss) for cc in (True, False) for xv in (0.0, 2.0) for xs in ([], [1.0], [1.0, 2.0]) for xss in ([[1.0]], [[1.0, 2.0], [3.0]])]
+    for tag, body in DIRECTED:
+        src = DIRECTED_HEADER + '@fp.fpy\ndef f(c, x, xs, xss):\n    ' + body + '\n'
+        try:
+            mod = genprog.load_module(src, work, 'c15d')
+        except Exception as e:
+            res.count(f'directed_rejected:{type(e).__name__}')
+            continue
+        res.count('directed_accepted')
+        for args in inputs:
+            out = genrun.call(mod.f, list(args), timeout=3.0)
+            res.evaluations += 1
+            bad = None
+            if out[0] == 'ok' and out[1] == ('none',):
+                bad = 'returned None (fell off its end)'
+            elif out[0] == 'exc':
+                en, msg = out[1], out[2]
+                if en in ('UnboundLocalError', 'NameError') or (en == 'KeyError' and ('SourceId' in msg or 'NamedId' in msg)):
+                    bad = f'failed with {en}: {msg}'
+            if bad:
+                res.violate({'property': PROP, 'problem': 'accepted program ' + bad, 'source': src[src.find('@fp.fpy\ndef f('):], 'args': repr(args), 'directed': tag,
+                             'mechanism': {'kind': 'runtime', 'directed': tag}})
+                break
+        genprog.unload(mod)
 
 
 def _is_target_leak(body, bad):
